@@ -74,7 +74,8 @@ Record exec_case := {
   xc_data : jt;                 (* observed *)
   xc_errors : list err;
   xc_log : list logent;
-  xc_recovers : nat }.          (* RecoverFunc invocations during the operation *)
+  xc_recovers : nat;            (* RecoverFunc invocations during the operation *)
+  xc_order : list (bool * path) }.   (* resolver start (true) / end (false) events in real-time order *)
 
 Definition fuel_of (c : exec_case) : nat := 40%nat.
 
@@ -124,3 +125,25 @@ Fixpoint has_dup_key (j : jt) {struct j} : bool :=
 Definition is_panic_err (e : err) : bool := match snd e with EPanic _ => true | _ => false end.
 Definition c04_monitor (c : exec_case) : bool :=
   exec_monitor_tn c && Nat.eqb (xc_recovers c) (List.length (filter is_panic_err (xc_errors c))).
+
+(** C06 monitor: the specified response whatever the schedule was, and for mutations the root fields run
+    one after another in document order, each starting only after the previous one has completed
+    including its sub-selection. *)
+Definition first_key (p : path) : string := match p with PKey k :: _ => k | _ => "" end.
+Fixpoint dedup_adjacent (l : list string) {struct l} : list string :=
+  match l with
+  | a :: ((b :: _) as r) => if String.eqb a b then dedup_adjacent r else a :: dedup_adjacent r
+  | _ => l
+  end.
+Fixpoint subsequence (a b : list string) {struct b} : bool :=
+  match a, b with
+  | [], _ => true
+  | _, [] => false
+  | x :: ra, y :: rb => if String.eqb x y then subsequence ra rb else subsequence a rb
+  end.
+Definition root_keys (c : exec_case) : list string :=
+  map c_alias (impl_collect (xc_schema c) true (root_of c) (xc_sels c)).
+Definition serial_ok (c : exec_case) : bool :=
+  subsequence (dedup_adjacent (map (fun e => first_key (snd e)) (xc_order c))) (root_keys c).
+Definition c06_monitor (c : exec_case) : bool :=
+  exec_monitor_tn c && (negb (String.eqb (xc_root c) "Mutation") || serial_ok c).
